@@ -127,6 +127,7 @@ func Run(sc *bw.Scenario) *simkit.Outcome {
 	}
 	cl := w.closure(sc.Adds)
 	states := map[string]bool{}
+	book := &simkit.TapeBook{Tapes: sc.Tapes, Have: sc.HaveTape}
 
 	var results []*vresult
 	for vi := range sc.Variants {
@@ -139,7 +140,7 @@ func Run(sc *bw.Scenario) *simkit.Outcome {
 			os.MkdirAll(fmt.Sprintf("/w/target%d", k), 0o755)
 		}
 		before := simkit.Snapshot(excl...)
-		vr := runVariant(sc, vi, w, pkgAddr, regAddrs, target, log, out, states)
+		vr := runVariant(sc, book, vi, w, pkgAddr, regAddrs, target, log, out, states)
 		after := simkit.Snapshot(excl...)
 		results = append(results, vr)
 		// C10 (last clause): nothing outside the target directory is touched, whatever happened
@@ -156,7 +157,7 @@ func Run(sc *bw.Scenario) *simkit.Outcome {
 	}
 	checkAcrossVariants(sc, w, cl, results, out)
 	if len(results) > 0 {
-		runPostOps(sc, w, cl, results[0], log, out)
+		runPostOps(sc, book, w, cl, results[0], log, out)
 	}
 	for s := range states {
 		out.States = append(out.States, s)
@@ -172,13 +173,14 @@ func Run(sc *bw.Scenario) *simkit.Outcome {
 			}
 		}
 	}
+	out.Tapes = book.Collect()
 	out.TraceHash = log.Hash()
 	out.Steps = log.Steps
 	out.Events = log.Events
 	return out
 }
 
-func runVariant(sc *bw.Scenario, vi int, w *world, pkgAddr []sourceaddrs.RemotePackage, regAddrs []regaddr.ModulePackage, target string, log *simkit.Log, out *simkit.Outcome, states map[string]bool) *vresult {
+func runVariant(sc *bw.Scenario, book *simkit.TapeBook, vi int, w *world, pkgAddr []sourceaddrs.RemotePackage, regAddrs []regaddr.ModulePackage, target string, log *simkit.Log, out *simkit.Outcome, states map[string]bool) *vresult {
 	va := &sc.Variants[vi]
 	r := &vrun{sc: sc, va: va, vi: vi, w: w, log: log, out: out, target: target, siteN: map[string]int{}, cancels: map[int]context.CancelFunc{},
 		pkgAddr: pkgAddr, regAddr: regAddrs, diagsSeen: map[string][]string{}, tmpDirs: map[string]bool{}, faultsFired: map[string]int{}}
@@ -195,14 +197,7 @@ func runVariant(sc *bw.Scenario, vi int, w *world, pkgAddr []sourceaddrs.RemoteP
 		out.Harness = "NewBuilder: " + err.Error()
 		return res
 	}
-	var fb *simkit.RNG
-	var tape []int
-	if va.HaveTape {
-		tape = va.Tape
-	} else {
-		fb = simkit.NewRNG(va.SchedSeed, "bw/sched")
-	}
-	r.sched = simkit.NewSched(log, tape, fb, va.Shape)
+	r.sched = book.NewSched(log, va.SchedSeed, "bw/sched", va.Shape)
 	ntasks := 1
 	for _, t := range va.Tasks {
 		if t+1 > ntasks {
@@ -310,7 +305,6 @@ func runVariant(sc *bw.Scenario, vi int, w *world, pkgAddr []sourceaddrs.RemoteP
 	}
 	r.inTasks = false
 	res.tape = r.sched.Recorded
-	out.Tape = r.sched.Recorded
 	out.Decisions += r.sched.Decisions
 	out.Inter = r.sched.InterleavingHash()
 	for k, v := range r.faultsFired {
